@@ -12,6 +12,7 @@ theorem scan_append (l1 l2 : List Ev) (st : Nat × Option Nat) :
     | start i => cases o <;> simp [scan] <;> split <;> simp [ih]
     | finish i r => cases o <;> simp [scan] <;> split <;> simp [ih]
     | deliver i r => simp [scan, ih]
+    | retry i => cases o <;> simp [scan] <;> split <;> simp [ih]
 
 theorem succeeded_append (l1 l2 : List Ev) : succeeded (l1 ++ l2) = succeeded l1 ++ succeeded l2 := by
   induction l1 with
@@ -21,6 +22,7 @@ theorem succeeded_append (l1 l2 : List Ev) : succeeded (l1 ++ l2) = succeeded l1
     | start i => simp [succeeded, ih]
     | finish i r => cases r <;> simp [succeeded, ih]
     | deliver i r => simp [succeeded, ih]
+    | retry i => simp [succeeded, ih]
 
 /-- `k` request triples for operations a, a+1, …, a+k-1 -/
 def triplesFrom (a : Nat) : Nat → List Item
@@ -145,5 +147,59 @@ theorem scan_mono (l : List Ev) : ∀ (n : Nat) (o : Option Nat) (m : Nat) (o' :
         · have := ih _ _ _ _ h; omega
         · simp at h
     | deliver i r => simp only [scan] at h; exact ih _ _ _ _ h
+    | retry i =>
+      cases o with
+      | none => simp [scan] at h
+      | some j =>
+        simp only [scan] at h
+        split at h
+        · exact ih _ _ _ _ h
+        · simp at h
+
+/-- in an accepted log every further attempt belongs to an operation that is not finished yet:
+scanning from `n` finished operations (with the operation in progress, if any, being number `n`),
+only operations `≥ n` can have attempts -/
+theorem scan_retry_ge (l : List Ev) : ∀ (n : Nat) (o : Option Nat) (st : Nat × Option Nat),
+    scan l (n, o) = some st → (∀ j, o = some j → j = n) → ∀ i, Ev.retry i ∈ l → n ≤ i := by
+  induction l with
+  | nil => intro n o st _ _ i hi; simp at hi
+  | cons e rest ih =>
+    intro n o st h ho i hi
+    cases e with
+    | start i0 =>
+      have hi' : Ev.retry i ∈ rest := by simpa using hi
+      cases o with
+      | none =>
+        simp only [scan] at h
+        split at h
+        · rename_i heq
+          exact ih n (some i0) st h (by intro j hj; cases hj; exact heq) i hi'
+        · simp at h
+      | some j => simp [scan] at h
+    | finish i0 r0 =>
+      have hi' : Ev.retry i ∈ rest := by simpa using hi
+      cases o with
+      | none => simp [scan] at h
+      | some j =>
+        simp only [scan] at h
+        split at h
+        · have := ih (n + 1) none st h (by intro j hj; cases hj) i hi'; omega
+        · simp at h
+    | deliver i0 r0 =>
+      have hi' : Ev.retry i ∈ rest := by simpa using hi
+      simp only [scan] at h
+      exact ih n o st h ho i hi'
+    | retry i0 =>
+      cases o with
+      | none => simp [scan] at h
+      | some j =>
+        simp only [scan] at h
+        split at h
+        · rename_i heq
+          simp only [List.mem_cons, Ev.retry.injEq] at hi
+          rcases hi with hi | hi
+          · have := ho j rfl; omega
+          · exact ih n (some j) st h ho i hi
+        · simp at h
 
 end Tahoe.Serializer
